@@ -21,8 +21,22 @@ class Ledger:
         if os.path.exists(path):
             with open(path) as f:
                 self.entries = json.load(f).get("findings", [])
+        import glob
+        for extra in sorted(glob.glob(os.path.join(HERE, "findings", "pending", "*.json"))):
+            with open(extra) as f:
+                self.entries.extend(json.load(f).get("findings", []))
         from pbt import known_classes
         self._classes = known_classes
+
+    def _predicate(self, entry):
+        """Predicates live in the property module (functions named like the `predicate` field) or in known_classes."""
+        import importlib
+        name = entry["predicate"]
+        mod = importlib.import_module(f"pbt.props.{entry['property']}")
+        fn = getattr(mod, name, None) or getattr(self._classes, name, None)
+        if fn is None:
+            raise KeyError(f"no predicate {name}")
+        return fn
 
     def open_for(self, prop):
         return [e for e in self.entries if e["property"] == prop and e["status"] == "open"]
@@ -37,7 +51,7 @@ class Ledger:
             checks = e.get("checks") or [e.get("check")]
             if check_name not in checks:
                 continue
-            pred = getattr(self._classes, e["predicate"])
+            pred = self._predicate(e)
             try:
                 if pred(check_name, desc, viol):
                     return e["id"]
